@@ -61,25 +61,31 @@ Definition value_of (b : Z) (ds : list Z) : Z := fold_left (fun a d => a * b + d
 
 Definition base16_ok (base : Z) : bool := (base =? 0) || (base =? 16).
 
-(* numeral base s = Some (negative?, magnitude, rest):
-   [+-]? ( 0[xX] hexdigit+ | digit+ )   where the 0x form exists only for base 0 / 16 and only when
-   a hex digit follows; for base 0 a leading 0 means octal, otherwise decimal.  Longest match. *)
-Definition numeral (base : Z) (s : list N) : option (bool * Z * list N) :=
-  let '(neg, s1) :=
-    match s with
-    | c :: r => if (c =? 45)%N then (true, r) else if (c =? 43)%N then (false, r) else (false, s)
-    | [] => (false, s)
-    end in
+(* optional sign *)
+Definition split_sign (s : list N) : bool * list N :=
+  match s with
+  | c :: r => if (c =? 45)%N then (true, r) else if (c =? 43)%N then (false, r) else (false, s)
+  | [] => (false, s)
+  end.
+
+(* the base actually used and where its digits start: the 0x / 0X prefix exists only for base 0 / 16
+   and only when a hex digit follows; for base 0 a leading 0 means octal, otherwise decimal *)
+Definition select_base (base : Z) (s1 : list N) : Z * list N :=
   let plain := if base =? 0 then (match s1 with c :: _ => if (c =? 48)%N then 8 else 10 | [] => 10 end)
                else base in
-  let '(b, s2) :=
-    match s1 with
-    | z :: x :: h :: r =>
-      if (z =? 48)%N && ((x =? 120)%N || (x =? 88)%N) && base16_ok base &&
-         (match digit_in 16 h with Some _ => true | None => false end)
-      then (16, h :: r) else (plain, s1)
-    | _ => (plain, s1)
-    end in
+  match s1 with
+  | z :: x :: h :: r =>
+    if (z =? 48)%N && ((x =? 120)%N || (x =? 88)%N) && base16_ok base &&
+       (match digit_in 16 h with Some _ => true | None => false end)
+    then (16, h :: r) else (plain, s1)
+  | _ => (plain, s1)
+  end.
+
+(* numeral base s = Some (negative?, magnitude, rest):
+   [+-]? ( 0[xX] hexdigit+ | digit+ ), longest match *)
+Definition numeral (base : Z) (s : list N) : option (bool * Z * list N) :=
+  let (neg, s1) := split_sign s in
+  let (b, s2) := select_base base s1 in
   match take_digits b s2 with
   | ([], _) => None
   | (ds, rest) => Some (neg, value_of b ds, rest)
